@@ -21,6 +21,7 @@ ASSUMPTIONS = [
     "spsc-B: non-atomic work between two shim scheduling points (slot write/read, waiter-slot take/fill) is atomic with the preceding visible action",
     "spsc-B: park tokens are per role (a handle is used by one thread at a time); Arc refcount traffic is not a visible action",
     "spsc-B: batch forms, is_closed/is_full and sync<->async conversions are not in the step-level model yet: such cases are replayed up to the first such call and counted under TAG skip:<op>",
+    "spsc-B: the timed receive recv_timeout(d) is in the model (same call sites as recv, Loc.tm; park_timeout = park that may return without a token; the deadline test is the environment step Label.deadline, placed by the driver where the trace shows the call left instead of waiting)",
 ]
 
 
